@@ -1,4 +1,5 @@
 """Harnesses and declarative reference decoders for the image tools (used by C16-C19 through E1 pysym)."""
+import time
 import importlib
 import sys as _sys
 
@@ -59,11 +60,17 @@ def load(modname):
     return importlib.import_module("coco." + modname)
 
 
+CASE_CPU_BUDGET_S = 240
+
+
 def explore(make_run, premises, unwind=8, max_paths=600):
     """make_run() -> (callable(path) -> value, sink or None).  Returns list of dicts per path."""
     results = []
     stack = [[]]
+    t0 = time.process_time()
     while stack:
+        if time.process_time() - t0 > CASE_CPU_BUDGET_S:
+            raise HarnessGap(f"case exceeds its CPU budget of {CASE_CPU_BUDGET_S} s after {len(results)} paths")
         dec = stack.pop()
         path = Path(dec, premises)
         run, sink, extra = make_run()
